@@ -137,7 +137,11 @@ func MultiPolygon(box orb.Bound, mp orb.MultiPolygon, o orb.Orientation) orb.Mul
 			return nil // everything outside bound
 		}
 
-		return mp // everything inside bound
+		if len(closedOuters) == len(outerRings) {
+			return mp // everything inside bound
+		}
+
+		// some polygons are inside and the others outside, keep the inside ones below.
 	}
 
 	// inner rings
